@@ -74,6 +74,13 @@ var c06Toggled = []cPattern{
 	{pat: "/w/{name}/z", witness: func(v string) string { return "/w/" + v + "/z" }, param: "name", group: "twins:/w/{}/z"},
 }
 
+// patterns of the ordered writer (different subtrees; not part of the porcupine model)
+const (
+	c06OrdA = "/oa/{id}/x"
+	c06OrdB = "/zb/y"
+	c06OrdC = "/mc/{n}"
+)
+
 func c06IsToggled(pat string) bool {
 	for _, t := range c06Toggled {
 		if t.pat == pat {
@@ -133,6 +140,7 @@ type c06Run struct {
 	viol       []string
 	untouchedH map[string]*mon.Hnd
 	untouched  atomic.Int64
+	ordSeen    atomic.Int64
 }
 
 func (x *c06Run) record(e cEvent) {
@@ -605,6 +613,35 @@ func runC06(c *Ctx) {
 			}
 		}(w)
 	}
+	// the ordered writer: one goroutine, so its program order is real-time order. It keeps the invariant
+	// "b live => c live and a has POST" by registering a's POST and c before b, and removing b before them.
+	{
+		ha := env.NewHnd(mon.KRoute, c06OrdA)
+		x.r.Handle(c06OrdA, ha, nil, "GET")
+		wg.Add(1)
+		n := opsPerWriter
+		go func() {
+			defer wg.Done()
+			defer func() {
+				if p := recover(); p != nil {
+					x.violate(fmt.Sprintf("ordered writer panicked: %v", p))
+				}
+			}()
+			for i := 0; i < n; i++ {
+				x.r.Handle(c06OrdA, env.NewHnd(mon.KRoute, c06OrdA), nil, "POST")
+				x.r.Handle(c06OrdC, env.NewHnd(mon.KRoute, c06OrdC), nil, "GET")
+				x.r.Handle(c06OrdB, env.NewHnd(mon.KRoute, c06OrdB), nil, "GET", "PUT")
+				x.r.Remove(c06OrdB)
+				if i%2 == 0 {
+					x.r.Remove(c06OrdC)
+					x.r.Remove(c06OrdA, "POST")
+				} else {
+					x.r.Remove(c06OrdA, "POST")
+					x.r.Remove(c06OrdC, "GET")
+				}
+			}
+		}()
+	}
 	var uniq atomic.Int64
 	for rd := 0; rd < readers; rd++ {
 		wg.Add(1)
@@ -649,6 +686,14 @@ func runC06(c *Ctx) {
 						for _, u := range c06Untouched {
 							if got := strings.Join(mon.SortedCopy(routes[u.pat]), ","); got != "GET,HEAD,OPTIONS,POST" {
 								x.violate(fmt.Sprintf("Routes()[%q]=%q for an untouched route", u.pat, got))
+							}
+						}
+						// the listing is one snapshot: the ordered writer keeps "b listed => c listed and a has POST" true at every instant
+						if _, bLive := routes[c06OrdB]; bLive {
+							x.ordSeen.Add(1)
+							_, cLive := routes[c06OrdC]
+							if !cLive || !contains(routes[c06OrdA], "POST") {
+								x.violate(fmt.Sprintf("Routes() is not a snapshot of one instant: it lists %q (registered only while %q is live and %q has POST) together with %q=%v and %q listed=%v", c06OrdB, c06OrdC, c06OrdA, c06OrdA, routes[c06OrdA], c06OrdC, cLive))
 							}
 						}
 					}
@@ -698,6 +743,7 @@ func runC06(c *Ctx) {
 	}
 	c.EvalN(len(x.events))
 	c.ClassN("untouched_route_served", int(x.untouched.Load()))
+	c.ClassN("routes_snapshot_with_ordered_pair_live", int(x.ordSeen.Load()))
 
 	// ---- porcupine over the recorded history ----
 	var ops []porcupine.Operation
@@ -1016,11 +1062,11 @@ func init() {
 		Cases:    func(t string) int { return map[string]int{"quick": 192, "thorough": 6000}[t] },
 		Run:      runC06,
 		Post:     racePost("C06"),
-		Rule: "case = one history on a fresh WithLock router: 2-4 writers (Handle with unique handler ids, Remove, Remove-all, Prefix.Clean; owned and contended patterns that split/re-merge the nodes of untouched routes and create/destroy the first-byte index) x 4-8 readers (ServeHTTP, Routes, strict/non-strict URL), yields injected through builders/middleware/interceptor/CallFunc, GOMAXPROCS in {2,4,16}; every OPTIONS/405 answer of a toggled route adds a second event (the Allow set its builder wrote, same window, linearized on its own: it must be the pattern's method set at some instant of the request, never empty); 10 directed single-goroutine schedules perform a write between lookup and handler; evaluation = one recorded client event; " +
+		Rule: "case = one history on a fresh WithLock router: 2-4 writers (Handle with unique handler ids, Remove, Remove-all, Prefix.Clean; owned and contended patterns that split/re-merge the nodes of untouched routes and create/destroy the first-byte index) x 4-8 readers (ServeHTTP, Routes, strict/non-strict URL), yields injected through builders/middleware/interceptor/CallFunc, GOMAXPROCS in {2,4,16}; every OPTIONS/405 answer of a toggled route adds a second event (the Allow set its builder wrote, same window, linearized on its own: it must be the pattern's method set at some instant of the request, never empty); an ordered writer keeps a cross-pattern invariant that every Routes() snapshot must satisfy; 10 directed single-goroutine schedules perform a write between lookup and handler; evaluation = one recorded client event; " +
 			"non-trivial (distinct by history) = history in which at least one read overlapped a write of the same pattern (overlaps counted by write kind)",
 		Floors: func(t string) map[string]int64 {
 			if t == "quick" {
-				return map[string]int64{"read_overlapping_handle": 20, "read_overlapping_remove": 5, "untouched_route_served": 3000, "porcupine_ok": 50, "allow_header_of_toggled_route_observed": 1000, "write_between_lookup_and_handler": 20}
+				return map[string]int64{"read_overlapping_handle": 20, "read_overlapping_remove": 5, "untouched_route_served": 3000, "porcupine_ok": 50, "allow_header_of_toggled_route_observed": 1000, "write_between_lookup_and_handler": 20, "routes_snapshot_with_ordered_pair_live": 200}
 			}
 			return map[string]int64{"read_overlapping_handle": 1000, "read_overlapping_remove": 250, "untouched_route_served": 150000, "porcupine_ok": 2500, "allow_header_of_toggled_route_observed": 50000, "write_between_lookup_and_handler": 20}
 		},
